@@ -81,6 +81,8 @@ var checkC15 = def("C15/iterative", func(c iterCase) error {
 	holdFrom := 2
 	if c.Ungated {
 		holdFrom = 0
+	} else if c.HaltAt == 1 {
+		holdFrom = 1 // hold the very first iteration: a halt requested now must wait for it
 	}
 	gs := newGatedSearch(inner, holdFrom)
 
@@ -196,6 +198,41 @@ var checkC15 = def("C15/iterative", func(c iterCase) error {
 
 	endedBy := ""
 	closed := false
+	if !c.Ungated && c.HaltAt == 1 {
+		// Halt is requested while depth 1 is still pending: it must not return before that
+		// iteration is complete, and must then return it.
+		var first gateEvent
+		select {
+		case first = <-gs.entering:
+		case <-time.After(liveness):
+			return fmt.Errorf("%s: the analysis never started its first iteration", where)
+		}
+		res := make(chan search.PV, 1)
+		go func() { res <- halt() }()
+		select {
+		case pv := <-res:
+			close(first.release)
+			return fmt.Errorf("%s: Halt returned %v while depth 1 was still being searched", where, pv)
+		case <-time.After(15 * time.Millisecond):
+		}
+		close(first.release)
+		select {
+		case pv := <-res:
+			haltPV = &pv
+			if pv.Depth < 1 {
+				return fmt.Errorf("%s: Halt requested during depth 1 returned before depth 1 was complete (%v)", where, pv)
+			}
+			if err := judgePV(pv, "Halt()"); err != nil {
+				return err
+			}
+			if len(pv.Moves) == 0 && g.Cur().Pos.HasLegal() {
+				return fmt.Errorf("%s: Halt requested during depth 1 returned no moves although the root has legal moves", where)
+			}
+		case <-time.After(liveness):
+			return fmt.Errorf("%s: Halt requested during depth 1 never returned", where)
+		}
+		endedBy = "halt-during-depth-1"
+	}
 	if c.Ungated {
 		if c.DelayUS > 0 {
 			time.Sleep(time.Duration(c.DelayUS) * time.Microsecond)
@@ -298,8 +335,8 @@ func genIterCase(t *rapid.T) iterCase {
 	default:
 		c.Depth = rapid.IntRange(1, cap).Draw(t, "limit")
 	}
-	if rapid.IntRange(0, 2).Draw(t, "halt") == 0 && cap >= 2 {
-		c.HaltAt = rapid.IntRange(2, cap).Draw(t, "haltat")
+	if rapid.IntRange(0, 2).Draw(t, "halt") == 0 {
+		c.HaltAt = rapid.IntRange(1, max(1, cap)).Draw(t, "haltat")
 	}
 	c.ViaEngine = rapid.Bool().Draw(t, "viaengine")
 	if rapid.IntRange(0, 5).Draw(t, "ungated") == 0 {
